@@ -673,7 +673,25 @@ pid_t __wrap_waitpid(pid_t pid, int *status, int options)
 {
   int e = fault(FK_WAITPID);
   if (e) { errno = e; return -1; }
-  if (pid <= 0) { sk_mon(MON_WAIT_ANY, pid, 0); sk_logev(LK_WAITPID, pid, 0, 0, -ECHILD); errno = ECHILD; return -1; }
+  if (pid <= 0) {
+    /* "any child": never legitimate for this library (C06) - flagged - but emulated faithfully so that the damage shows:
+       some zombie child is reaped and its status taken away from the handle that owns it */
+    sk_mon(MON_WAIT_ANY, pid, 0);
+    int any = 0;
+    for (int i = 1; i < SK_MAXPROC; i++) {
+      struct sk_proc *c = &K->proc[i];
+      if (c->state == PS_ZOMBIE) {
+        c->state = PS_REAPED;
+        if (status) *status = c->status;
+        sk_logev(LK_WAITPID, pid, options, c->handle, c->pid);
+        return c->pid;
+      }
+      if (c->state == PS_RUNNING) any = 1;
+    }
+    sk_logev(LK_WAITPID, pid, 0, 0, any ? 0 : -ECHILD);
+    if (any && (options & WNOHANG)) return 0;
+    errno = ECHILD; return -1;
+  }
   int pi = sk_proc_by_pid(pid);
   if (pi < 0 || K->proc[pi].state == PS_REAPED) {
     sk_mon(MON_WAIT_BADPID, pid, 0);
